@@ -52,6 +52,13 @@
 (* lists untouched, no nesting (a nested warning would print itself again  *)
 (* and never terminate: NoNestedWarning).                                  *)
 (*                                                                         *)
+(* A release names a buffer AND a size.  With a size of the class the       *)
+(* buffer was requested in it is a proper release (Dealloc).  With a size   *)
+(* of any other class - another cached class, or across the cached /        *)
+(* non-cached border - the cache is asked for a buffer it does not keep     *)
+(* there: an unknown release like that of a foreign pointer                 *)
+(* (DeallocElsewhere / WarnBegin), the buffer stays handed out.             *)
+(*                                                                         *)
 (* The property leaves open WHICH idle block of the class is reused and    *)
 (* whether one is reused at all: Alloc is nondeterministic there.          *)
 (* AllocImpl is the choice the code makes today (head of the free list,    *)
@@ -174,6 +181,15 @@ DeallocUnknown ==
     /\ last' = Outcome("dealloc", 0, ~warned, {}, {})
     /\ UNCHANGED <<free, used, uncached, under, nid, req, printing>>
 
+\* dealloc(p, m) of a handed-out buffer with a size of ANOTHER class than the one the buffer was requested in: another
+\* cached class, a size above the largest class for a cached buffer, a cached size for a buffer above the largest class.
+\* The size says where the cache keeps the buffer; it is not there: to the cache this is a buffer it does not know.
+\* So the release is an unknown release (the one-time warning, nothing changes): in particular the buffer is still handed
+\* out - its owner may release it properly later - and it never becomes an idle block of the class the size named
+\* (it would be reused for requests of a class that is not its own, possibly too small for them).
+ElsewhereSize(mem, m) == mem \in DOMAIN req /\ ClassOf(m) # ClassOf(req[mem])
+DeallocElsewhere(mem, m) == ElsewhereSize(mem, m) /\ DeallocUnknown
+
 \* the first unknown release on a cache that is the string allocator: the warning is decided (once and for all) and its
 \* printing begins; until WarnEnd the printing code requests / releases buffers like any other client
 WarnBegin ==
@@ -232,7 +248,8 @@ Next == \/ \E k \in {"bare", "global"} : Construct(k, {})
         \/ Destroy
         \/ \E n \in Sizes : Cardinality(DOMAIN req) < MaxLive /\ Alloc(n)
         \/ \E mem \in DOMAIN req, m \in Sizes : Dealloc(mem, m)
-        \/ DeallocUnknown \/ WarnBegin \/ WarnEnd
+        \/ \E mem \in DOMAIN req, m \in Sizes : DeallocElsewhere(mem, m)
+        \/ DeallocUnknown \/ WarnBegin \/ WarnEnd     \* (WarnBegin: of a foreign pointer or of a buffer with a size of another class)
         \/ ClearCache \/ ClearAll
 
 Spec == Init /\ [][Next]_vars
